@@ -152,7 +152,8 @@ def history_case(ctx, case) -> None:
     d = Path(tempfile.mkdtemp(prefix="vmon-c19-", dir=case.get("tmp")))
     path = d / "data.json"
     model: dict[str, dict] = {}
-    pool = ["run", "", "run ", "žluť", 'q"uo\\te', "a" * 300, "run/1", "0", "run\n2"] + [f"r{i}" for i in range(rng.randint(1, 6))]
+    pool = ["run", "", "run ", "žluť", 'q"uo\\te', "a" * 300, "run/1", "0", "run\n2", "metadata", "data", "actions", "nested", "c",
+            "a", "seed", "run_type", '"', "{", "null"] + [f"r{i}" for i in range(rng.randint(1, 6))]
     _AUDIT.update(on=True, path=str(path), events=[])
     try:
         for idx in range(case["length"]):
